@@ -485,9 +485,9 @@ def run_files(ctx, faults=False):
                             f"fault-free read({o},{n}) after the run raised {type(e).__name__}: {e}")
             check_signal(ctx, "epilogue", m, r, o, n, z, "read")
             if snapshot.snap_reader(r) != base_dicts[ri]:
-                ctx.violate("reader-state-changed", f"{m.rs['cls']}:state",
-                            "reader attributes differ from their values before the run: "
-                            + snapshot.describe_diff(base_dicts[ri], snapshot.snap_reader(r)))
+                # statelessness is judged by behaviour (the checks above); a changed or new
+                # attribute alone is only recorded
+                ctx.probe("reader_attributes_changed_(not_alarmed)")
     # history: every result for the same (reader, o, n) is bit-identical
     seen = {}
     for h in history:
@@ -510,3 +510,149 @@ def run_files(ctx, faults=False):
 
 def run_files_faults(ctx):
     return run_files(ctx, faults=True)
+
+
+# ---------------------------------------------------------------------------
+# scenario "store": BaseReader itself, through its documented extension point
+
+
+STORE_RATES = [(1.0, "MHz"), (1e-3, "Hz"), (2.0, "GHz"), (1.0 / 3, "Hz"), (44.1, "kHz"),
+               (3.125, "MHz"), (800.0, "MHz"), (1.0, "Hz"), (1e9 / 7, "Hz")]
+STORE_LENGTHS = [64, 1000, 1 << 20, 10 ** 9, 2 * 10 ** 9, 7, 1]
+STORE_CLASSES = [("Signal", (), "float32"), ("Signal", (3,), "complex64"),
+                 ("BasebandSignal", (4,), "complex64"), ("IntensitySignal", (2,), "float32"),
+                 ("FullStokesSignal", (2, 4), "float32"),
+                 ("DualPolarizationSignal", (3, 2), "complex128"), ("RadioSignal", (2, 2), "float64")]
+
+
+from .storevals import store_values
+
+
+def store_reader_class(pb):
+    from . import storereader
+    return storereader.SimStoreReader
+
+
+def _set_store_sched(s):
+    from . import storereader
+    storereader.CUR["sched"] = s
+
+
+class StoreModel:
+    hilbert = False
+
+    def __init__(self, pb, spec):
+        import astropy.units as u
+        from astropy.time import Time
+        self.rs = {"cls": "SimStoreReader"}
+        self.spec = spec
+        self.sigtype, ss, dt = spec["cls"]
+        self.sample_shape = tuple(ss)
+        self.dtype = np.dtype(dt)
+        self.sr = spec["sr"][0] * getattr(u, spec["sr"][1])
+        self.length = spec["length"]
+        self.t0 = None if spec["start"] is None else Time(spec["start"], format="isot", precision=9)
+        self.expect = {}
+        if self.sigtype != "Signal":
+            self.expect = {"center_freq": 400 * u.MHz, "freq_align": spec["align"]}
+            if self.sigtype in ("IntensitySignal", "FullStokesSignal", "RadioSignal"):
+                self.expect["chan_bw"] = 1 * u.MHz
+            if self.sigtype == "DualPolarizationSignal":
+                self.expect["pol_type"] = "circular"
+        if self.sample_shape and self.sample_shape[0] % 2 and "freq_align" in self.expect:
+            self.expect["freq_align"] = "center"
+        self.boundaries = [b for b in (16, 32, self.length // 2, self.length - 16) if 0 < b < self.length]
+
+    def signal_kwargs(self):
+        kw = {k: v for k, v in self.expect.items()}
+        if self.sample_shape and self.sample_shape[0] % 2 and "freq_align" in kw:
+            kw["freq_align"] = self.spec["align"]
+        return kw
+
+    def expected(self, o, n):
+        return store_values(o, n, self.sample_shape, self.dtype), 0.0
+
+
+def run_store(ctx):
+    import astropy.units as u
+    pb = core.setup_imports()
+    tape = ctx.tape
+    cls = store_reader_class(pb)
+    nread = 1 + tape.weighted([3, 1], "nreaders")
+    specs, models, readers = [], [], []
+    switch = [1, 0, 4, 8][tape.draw(4, "switch")]
+    nthreads = 1 + tape.weighted([2, 3, 2, 1], "nthreads")
+    sched = Sched(ctx, switch_eighths=switch)
+    sched.stop = False
+    for i in range(nread):
+        sr = STORE_RATES[tape.draw(len(STORE_RATES), f"s{i}.sr")]
+        L = STORE_LENGTHS[tape.draw(len(STORE_LENGTHS), f"s{i}.len")]
+        srhz = (sr[0] * getattr(u, sr[1])).to_value(u.Hz)
+        L = int(max(1, min(L, 1e8 * srhz)))         # keep the time span below ~3 years
+        spec = {"cls": list(STORE_CLASSES[tape.draw(len(STORE_CLASSES), f"s{i}.cls")]),
+                "sr": list(sr), "length": L,
+                "start": [None] + files.T0S + ["1999-12-31T23:59:59.999999999"],
+                "align": ["center", "bottom", "top"][tape.draw(3, f"s{i}.align")]}
+        spec["start"] = spec["start"][tape.draw(len(spec["start"]), f"s{i}.start")]
+        m = StoreModel(pb, spec)
+        kw = m.signal_kwargs()
+        r = cls(shape=(L,) + m.sample_shape, dtype=m.dtype, signal_type=getattr(pb, m.sigtype),
+                sample_rate=m.sr, start_time=m.t0, **kw)
+        specs.append(spec)
+        models.append(m)
+        readers.append(r)
+    case = {"store_readers": specs, "threads": [], "switch_eighths": switch}
+    ctx.sample = case
+    ctx.log("case", specs, switch, nthreads)
+    history = []
+    for m, r in zip(models, readers):
+        if len(r) != m.length or r.dtype != m.dtype:
+            ctx.violate("wrong-length", "SimStoreReader.static:len", f"{len(r)} vs {m.length}")
+    _set_store_sched(sched)
+    try:
+        for ti in range(nthreads):
+            ncalls = 1 + tape.draw(6, f"t{ti}.ncalls")
+            prog = gen_program(tape, nread, [m.length for m in models],
+                               [m.boundaries for m in models], f"t{ti}", ncalls, False)
+            # more round trips here: this scenario is about time/offset arithmetic
+            for c in range(1 + tape.draw(3, f"t{ti}.nrt")):
+                ri = tape.draw(nread, f"t{ti}.rt{c}.reader")
+                L = models[ri].length
+                ks = [0, L, tape.draw(L + 1, f"t{ti}.rt{c}.k"), max(0, L - 1),
+                      min(L, 1 + tape.draw(1 << 20, f"t{ti}.rt{c}.k2"))]
+                prog.insert(tape.draw(len(prog) + 1, f"t{ti}.rt{c}.pos"),
+                            {"kind": "roundtrip", "reader": ri, "ks": ks})
+            case["threads"].append(prog)
+            c = Client(ctx, f"T{ti}", prog, readers, models, sched, None, False, history)
+
+            def body(t, c=c):
+                try:
+                    c(t)
+                except core.Violation as v:
+                    if not sched.stop:
+                        sched.stop = True
+                        sched.violation = v
+                except Stop:
+                    pass
+
+            sched.spawn(f"T{ti}", body)
+        sched.violation = None
+        orig_yield = sched.yield_point
+
+        def yield_point(site):
+            if sched.stop:
+                raise Stop()
+            return orig_yield(site)
+
+        sched.yield_point = yield_point
+        sched.run()
+        if sched.violation is not None:
+            raise sched.violation
+        for t in sched.threads:
+            if t.exc is not None and not isinstance(t.exc, (Stop,)):
+                raise t.exc
+    finally:
+        _set_store_sched(None)
+    ctx.counts["thread_steps"] += sched.nsteps
+    ctx.counts["context_switches"] += sched.switches
+    ctx.nontrivial = len(history) >= 2
